@@ -1,6 +1,6 @@
-(* C19: ContainsPath agrees with the infix relation on component lists, for a sub
-   path in canonical form. *)
-From PV Require Import Lib.Bytes Model.Paths Spec.PathDenote Proofs.PathsBase Proofs.PathsPrefix.
+(* C19: ContainsPath agrees with the infix relation on component lists. *)
+From PV Require Import Lib.Bytes Model.Paths Spec.PathDenote Proofs.PathsBase Proofs.PathsClean
+  Proofs.PathsRender Proofs.PathsPrefix.
 Open Scope N_scope.
 
 (* ---------- list infix ---------- *)
@@ -26,13 +26,6 @@ Qed.
 Lemma list_infixb_nil b : list_infixb [] b = true.
 Proof. rewrite list_infixb_unfold. reflexivity. Qed.
 
-(* ---------- join_segs is strings.Join ---------- *)
-Lemma join_segs_join l : join_segs l = join_slash l.
-Proof.
-  induction l as [|x l IH]; [reflexivity|]. destruct l as [|y l]; [reflexivity|].
-  change (join_segs (x :: y :: l)) with (x ++ 47 :: join_segs (y :: l)). rewrite IH. reflexivity.
-Qed.
-
 Lemma join_app l1 l2 : l1 <> [] -> l2 <> [] -> join_slash (l1 ++ l2) = join_slash l1 ++ slash :: join_slash l2.
 Proof.
   intros H1 H2. induction l1 as [|x l1 IH]; [contradiction|]. destruct l1 as [|y l1].
@@ -47,91 +40,48 @@ Qed.
 Section Loop.
 Variable sub : str.
 
-Lemma contains_loop_sound n : forall first prev rest,
-  contains_loop n first prev rest sub = true ->
-  ((first || (prev =? slash)) = true /\ has_prefix_path rest sub = true) \/
-  (exists a b, rest = a ++ slash :: b /\ has_prefix_path b sub = true).
+Definition not_slash_first (rest : str) : bool :=
+  match rest with [] => true | c :: _ => negb (c =? slash) end.
+
+Lemma contains_loop_unfold first prev rest :
+  contains_loop first prev rest sub =
+  if (first || ((prev =? slash) && not_slash_first rest)) && has_prefix_path rest sub then true
+  else match rest with [] => false | c :: r => contains_loop false c r sub end.
+Proof. destruct rest; reflexivity. Qed.
+
+Lemma contains_loop_sound rest : forall first prev,
+  contains_loop first prev rest sub = true ->
+  ((first || ((prev =? slash) && not_slash_first rest)) = true /\ has_prefix_path rest sub = true) \/
+  (exists a b, rest = a ++ slash :: b /\ not_slash_first b = true /\ has_prefix_path b sub = true).
 Proof.
-  induction n as [|n IH]; intros first prev rest H; [discriminate|].
-  simpl in H. destruct ((first || (prev =? slash)) && has_prefix_path rest sub) eqn:E.
-  - left. apply andb_true_iff in E. exact E.
-  - right. destruct rest as [|c r]; [discriminate|].
-    destruct (IH _ _ _ H) as [[H1 H2]|(a & b & -> & H2)].
-    + simpl in H1. apply N.eqb_eq in H1. subst c. exists [], r. split; [reflexivity|exact H2].
-    + exists (c :: a), b. split; [reflexivity|exact H2].
+  induction rest as [|c r IH]; intros first prev H; rewrite contains_loop_unfold in H.
+  - destruct ((first || ((prev =? slash) && not_slash_first [])) && has_prefix_path [] sub) eqn:E; [|discriminate].
+    left. apply andb_true_iff in E. exact E.
+  - destruct ((first || ((prev =? slash) && not_slash_first (c :: r))) && has_prefix_path (c :: r) sub) eqn:E.
+    + left. apply andb_true_iff in E. exact E.
+    + right. destruct (IH _ _ H) as [[H1 H2]|(a & b & -> & H2 & H3)].
+      * simpl in H1. apply andb_true_iff in H1 as [H1 H1']. apply N.eqb_eq in H1. subst c.
+        exists [], r. repeat split; assumption.
+      * exists (c :: a), b. repeat split; assumption.
 Qed.
 
-Lemma contains_loop_here n first prev rest :
-  (first || (prev =? slash)) = true -> has_prefix_path rest sub = true ->
-  contains_loop (S n) first prev rest sub = true.
-Proof. intros H1 H2. simpl. rewrite H1, H2. reflexivity. Qed.
+Lemma contains_loop_here first prev rest :
+  (first || ((prev =? slash) && not_slash_first rest)) = true -> has_prefix_path rest sub = true ->
+  contains_loop first prev rest sub = true.
+Proof. intros H1 H2. rewrite contains_loop_unfold, H1, H2. reflexivity. Qed.
 
-Lemma contains_loop_later n : forall first prev a b,
-  has_prefix_path b sub = true -> (S (length a) < n)%nat ->
-  contains_loop n first prev (a ++ slash :: b) sub = true.
+Lemma contains_loop_later a : forall first prev b,
+  not_slash_first b = true -> has_prefix_path b sub = true ->
+  contains_loop first prev (a ++ slash :: b) sub = true.
 Proof.
-  induction n as [|n IH]; intros first prev a b Hb Hn; [lia|].
-  simpl. destruct ((first || (prev =? slash)) && has_prefix_path (a ++ slash :: b) sub); [reflexivity|].
-  destruct a as [|c a]; simpl.
-  - destruct n as [|n]; [lia|]. apply contains_loop_here; [reflexivity|exact Hb].
-  - apply IH; [exact Hb|simpl in Hn; lia].
+  induction a as [|c a IH]; intros first prev b Hn Hb; rewrite contains_loop_unfold.
+  - simpl app. destruct ((first || ((prev =? slash) && not_slash_first (slash :: b))) && has_prefix_path (slash :: b) sub);
+      [reflexivity|]. apply contains_loop_here; [|exact Hb]. simpl. exact Hn.
+  - simpl app. destruct ((first || ((prev =? slash) && not_slash_first (c :: a ++ slash :: b)))
+                         && has_prefix_path (c :: a ++ slash :: b) sub); [reflexivity|].
+    apply IH; assumption.
 Qed.
 End Loop.
-
-(* ---------- a measure: the text of a path is at least as long as its canonical text ---------- *)
-Fixpoint weight (l : list str) : nat :=
-  match l with [] => O | x :: t => (S (length x) + weight t)%nat end.
-
-Lemma weight_app a b : weight (a ++ b) = (weight a + weight b)%nat.
-Proof. induction a as [|x a IH]; simpl; [reflexivity|]. rewrite IH. lia. Qed.
-
-Lemma weight_join l : l <> [] -> S (length (join_slash l)) = weight l.
-Proof.
-  induction l as [|x l IH]; intro H; [contradiction|]. destruct l as [|y l].
-  - simpl. lia.
-  - change (join_slash (x :: y :: l)) with (x ++ slash :: join_slash (y :: l)).
-    rewrite app_length. change (weight (x :: y :: l)) with (S (length x) + weight (y :: l))%nat.
-    rewrite <- IH by discriminate. simpl length. lia.
-Qed.
-
-Lemma weight_text p : S (length p) = weight (split_slash p).
-Proof. rewrite <- (join_split p) at 1. apply weight_join. apply split_nonempty. Qed.
-
-Lemma weight_filter f l : (weight (filter f l) <= weight l)%nat.
-Proof. induction l as [|x l IH]; simpl; [lia|]. destruct (f x); simpl; lia. Qed.
-
-Lemma weight_components p : (weight (components p) <= S (length p))%nat.
-Proof.
-  rewrite weight_text. unfold components. rewrite (segs_split p).
-  destruct p as [|c s] eqn:Ep; [simpl; lia|]. rewrite <- Ep.
-  destruct (split_cons p) as (x & t & E). rewrite E.
-  rewrite (rooted_split p x t) by (subst; discriminate || exact E).
-  destruct x as [|d x]; simpl.
-  - pose proof (weight_filter seg_is_name t). lia.
-  - pose proof (weight_filter seg_is_name ((d :: x) :: t)) as H. simpl in H. exact H.
-Qed.
-
-Lemma join_parts_canonical q : canonical q -> q <> [].
-Proof.
-  unfold canonical, canonical_text. intros H E. rewrite E in H. vm_compute in H. discriminate.
-Qed.
-
-Lemma canonical_length q b :
-  canonical q -> b <> [] -> list_prefixb (components q) (components b) = true ->
-  (length q <= length b)%nat.
-Proof.
-  intros Hq Hb H. assert (Hb1 : (1 <= length b)%nat) by (destruct b; [contradiction|simpl; lia]).
-  assert (Hw : (weight (components q) <= S (length b))%nat).
-  { apply list_prefixb_spec in H as [c H].
-    pose proof (weight_components b) as Hwb. rewrite H, weight_app in Hwb. lia. }
-  unfold canonical, canonical_text in Hq. clear H.
-  destruct (components q) as [|x t].
-  - rewrite Hq. exact Hb1.
-  - destruct x as [|c x]; [destruct t as [|y t]|].
-    + rewrite Hq. exact Hb1.
-    + rewrite Hq, join_segs_join. rewrite <- weight_join in Hw by discriminate. lia.
-    + rewrite Hq, join_segs_join. rewrite <- weight_join in Hw by discriminate. lia.
-Qed.
 
 (* ---------- cutting a path in front of one of its names ---------- *)
 Lemma filter_split_at {A} (f : A -> bool) l : forall u x v,
@@ -168,26 +118,22 @@ Proof.
 Qed.
 
 (* ---------- auxiliary facts ---------- *)
-Lemma has_prefix_path_nil sub : sub <> [] -> sub <> dotstr -> has_prefix_path [] sub = false.
+(* the empty rest (after a trailing slash) only matches a sub path without components *)
+Lemma has_prefix_path_nil sub : sub <> [] ->
+  has_prefix_path [] sub = match components sub with [] => true | _ => false end.
 Proof.
-  intros H1 H2. unfold has_prefix_path, text_prefix.
+  intro H1. unfold has_prefix_path, text_prefix.
   destruct sub as [|c s] eqn:E; [contradiction|]. rewrite <- E in *.
   replace (strip_prefix sub []) with (@None str) by (rewrite E; reflexivity).
   replace (is_empty sub) with false by (rewrite E; reflexivity).
-  destruct (str_eqb sub dotstr) eqn:Ed; [apply str_eqb_spec in Ed; contradiction|].
-  simpl quick_reject. cbv iota. pose proof (parts_nonempty sub H1). destruct (parts sub); [contradiction|reflexivity].
+  destruct (str_eqb sub dotstr) eqn:Ed; [apply str_eqb_spec in Ed; rewrite Ed; reflexivity|].
+  simpl quick_reject. cbv iota. rewrite (is_dot_parts_components sub H1).
+  destruct (components sub) eqn:Ec; [reflexivity|].
+  pose proof (parts_nonempty sub H1). destruct (parts sub); [contradiction|reflexivity].
 Qed.
 
-Lemma has_double_slash_mid a b : has_double_slash (a ++ slash :: slash :: b) = true.
-Proof.
-  induction a as [|c a IH]; [reflexivity|].
-  simpl app. destruct a as [|d a].
-  - simpl. rewrite orb_true_r. reflexivity.
-  - simpl in *. rewrite IH. apply orb_true_r.
-Qed.
-
-Lemma canonical_named q : canonical q -> plain_dot_or_named q.
-Proof. unfold canonical, canonical_text, plain_dot_or_named. intros H E. rewrite E in H. exact H. Qed.
+Lemma not_slash_first_rooted b : not_slash_first b = negb (rooted b).
+Proof. destruct b; reflexivity. Qed.
 
 Lemma empty_component_first p pre post t :
   components p = pre ++ ([] :: t) ++ post -> pre = [].
@@ -203,30 +149,56 @@ Qed.
 
 (* ---------- the theorem ---------- *)
 Theorem contains_is_parts_infix p sub :
-  p <> [] -> canonical sub -> (rooted sub = false \/ has_double_slash p = false) ->
+  p <> [] -> sub <> [] -> (components sub = [] -> nocolon p) ->
   contains_path p sub = path_infixb sub p.
 Proof.
-  intros Hp Hc Hg. pose proof (join_parts_canonical sub Hc) as Hs.
-  pose proof (canonical_named sub Hc) as Hnamed.
-  unfold contains_path, path_infixb.
+  intros Hp Hs Hg. unfold contains_path, path_infixb.
   destruct (str_eqb sub dotstr) eqn:Ed.
   { apply str_eqb_spec in Ed. subst sub. change (components dotstr) with (@nil str).
     rewrite list_infixb_nil, orb_true_r. reflexivity. }
-  rewrite orb_false_r. apply str_eqb_false in Ed.
-  assert (Hpre : forall b, b <> [] -> has_prefix_path b sub = path_prefixb sub b).
-  { intros b Hb. apply prefix_is_parts_prefix; try assumption. intro; contradiction. }
-  assert (Hcs : components sub <> []) by (intro E; apply Hnamed in E; contradiction).
+  rewrite orb_false_r.
+  (* HasPrefixPath on a rest b of p *)
+  assert (Hpre : forall a b, b <> [] -> (p = b \/ p = a ++ slash :: b) ->
+                 has_prefix_path b sub = path_prefixb sub b).
+  { intros a b Hb Hpb. apply prefix_is_parts_prefix; try assumption.
+    intro Hc. apply nocolon_is_abs. specialize (Hg Hc). intro Hin. apply Hg.
+    destruct Hpb as [->| ->]; [exact Hin|]. apply in_or_app. right. right. exact Hin. }
   destruct (list_infixb (components sub) (components p)) eqn:Ei.
   - (* the components occur: the loop finds them *)
+    destruct (components sub) as [|x0 t0] eqn:Ecs.
+    { (* no component: every relative rest matches *)
+      apply components_nil in Ecs as Hn. destruct Hn as [Rs Ns].
+      assert (Hrel : forall a b, b <> [] -> rooted b = false -> (p = b \/ p = a ++ slash :: b) ->
+                     has_prefix_path b sub = true).
+      { intros a b Hb Rb Hpb. rewrite (Hpre a b Hb Hpb). unfold path_prefixb. rewrite Ecs, Rs, Rb. reflexivity. }
+      destruct (rooted p) eqn:Rp.
+      - (* skip the leading slashes *)
+        destruct p as [|c p']; [contradiction|]. simpl in Rp. apply N.eqb_eq in Rp. subst c.
+        rewrite contains_loop_unfold.
+        cbn [orb andb]. destruct (has_prefix_path _ sub); [reflexivity|].
+        assert (Hk : forall a r, slash :: p' = a ++ slash :: r -> contains_loop false slash r sub = true).
+        { intros a r. revert a. induction r as [|c r IH]; intros a Ea.
+          - apply contains_loop_here; [reflexivity|]. rewrite (has_prefix_path_nil sub Hs), Ecs. reflexivity.
+          - destruct (N.eqb_spec c slash) as [->|Hne].
+            + rewrite contains_loop_unfold. simpl not_slash_first. simpl andb.
+              apply (IH (a ++ [slash])). rewrite Ea, <- app_assoc. reflexivity.
+            + apply contains_loop_here.
+              * simpl. apply N.eqb_neq in Hne. rewrite Hne. reflexivity.
+              * apply (Hrel a (c :: r)); [discriminate| |right; exact Ea].
+                simpl. apply N.eqb_neq. exact Hne. }
+        apply (Hk [] p'). reflexivity.
+      - apply contains_loop_here; [reflexivity|]. apply (Hrel [] p Hp Rp). left. reflexivity. }
+    rewrite <- Ecs in *. assert (Hcs : components sub <> []) by (rewrite Ecs; discriminate).
     apply list_infixb_spec in Ei as (pre & post & Ei).
-    assert (Hfind : exists b, b <> [] /\ has_prefix_path b sub = true /\ (p = b \/ exists a, p = a ++ slash :: b)).
+    assert (Hfind : exists b, b <> [] /\ has_prefix_path b sub = true /\
+                              (p = b \/ exists a, p = a ++ slash :: b /\ rooted b = false)).
     { destruct (rooted sub) eqn:Rs.
       - (* a rooted sub path can only sit at the front *)
-        destruct (components sub) as [|x t] eqn:Ecs; [contradiction|].
-        destruct (components_head sub x t Ecs) as [Hx _]. rewrite Rs in Hx. destruct x; [|discriminate].
+        destruct (components sub) as [|x t] eqn:Ecs2; [contradiction|].
+        destruct (components_head sub x t Ecs2) as [Hx _]. rewrite Rs in Hx. destruct x; [|discriminate].
         pose proof (empty_component_first p pre post t Ei) as ->. simpl in Ei.
         exists p. split; [exact Hp|]. split; [|left; reflexivity].
-        rewrite (Hpre p Hp). unfold path_prefixb. rewrite Ecs, Ei. rewrite Rs.
+        rewrite (Hpre [] p Hp (or_introl eq_refl)). unfold path_prefixb. rewrite Ecs2, Ei. rewrite Rs.
         destruct (components_head p [] (t ++ post) Ei) as [Hr _]. rewrite <- Hr. simpl eqb.
         change ([] :: t ++ post) with (([] :: t) ++ post). rewrite list_prefixb_app. reflexivity.
       - assert (Ens : components sub = names sub) by (unfold components; rewrite Rs; reflexivity).
@@ -239,41 +211,34 @@ Proof.
             exists pre. assumption.
           - exists pre. exact Ei. }
         destruct Hnp as [u Hnp]. destruct (names_split_at p u x (t ++ post) Hnp) as (b & Hb & Rb & Nb & Hpb).
-        exists b. split; [exact Hb|]. split; [|exact Hpb].
-        rewrite (Hpre b Hb). unfold path_prefixb. rewrite Rs, Rb. simpl eqb.
-        rewrite Ens. unfold components. rewrite Rb. simpl app. fold (names b). rewrite Nb.
-        change (x :: t ++ post) with ((x :: t) ++ post). apply list_prefixb_app. }
-    destruct Hfind as (b & Hb & Hbs & Hpb).
-    assert (Hlen : (length sub <= length b)%nat).
-    { apply canonical_length; try assumption. rewrite (Hpre b Hb) in Hbs.
-      unfold path_prefixb in Hbs. apply andb_true_iff in Hbs. tauto. }
-    destruct Hpb as [->|[a ->]].
-    + apply Nat.leb_le in Hlen. rewrite Hlen. apply contains_loop_here; [reflexivity|exact Hbs].
-    + assert (Hl2 : (length sub <=? length (a ++ slash :: b))%nat = true).
-      { apply Nat.leb_le. rewrite app_length. simpl. lia. }
-      rewrite Hl2. apply contains_loop_later; [exact Hbs|]. rewrite app_length. simpl. lia.
+        assert (Hgoal : forall a0, (p = b \/ p = a0 ++ slash :: b) -> has_prefix_path b sub = true).
+        { intros a0 Hpb'. rewrite (Hpre a0 b Hb Hpb'). unfold path_prefixb. rewrite Rs, Rb. simpl eqb.
+          rewrite Ens. unfold components. rewrite Rb. simpl app. fold (names b). rewrite Nb.
+          change (x :: t ++ post) with ((x :: t) ++ post). apply list_prefixb_app. }
+        exists b. split; [exact Hb|]. destruct Hpb as [E|[a E]].
+        + split; [apply (Hgoal []); left; exact E|left; exact E].
+        + split; [apply (Hgoal a); right; exact E|right; exists a; split; assumption]. }
+    destruct Hfind as (b & Hb & Hbs & [->|(a & -> & Rb)]).
+    + apply contains_loop_here; [reflexivity|exact Hbs].
+    + apply contains_loop_later; [|exact Hbs]. rewrite not_slash_first_rooted, Rb. reflexivity.
   - (* the components do not occur: the loop finds nothing *)
-    destruct (length sub <=? length p)%nat; [|reflexivity].
-    destruct (contains_loop (S (length p - length sub)) true 0 p sub) eqn:El; [|reflexivity].
+    destruct (contains_loop true 0 p sub) eqn:El; [|reflexivity].
     exfalso. apply contains_loop_sound in El.
     assert (Hno : forall pre post, components p <> pre ++ components sub ++ post).
     { intros pre post E. assert (list_infixb (components sub) (components p) = true)
         by (apply list_infixb_spec; eauto). congruence. }
-    destruct El as [[_ H]|(a & b & E & H)].
-    + rewrite (Hpre p Hp) in H. unfold path_prefixb in H. apply andb_true_iff in H as [_ H].
+    destruct El as [[_ H]|(a & b & E & Hnb & H)].
+    + rewrite (Hpre [] p Hp (or_introl eq_refl)) in H. unfold path_prefixb in H. apply andb_true_iff in H as [_ H].
       apply list_prefixb_spec in H as [c H]. apply (Hno [] c). exact H.
-    + destruct b as [|c0 b0] eqn:Eb; [rewrite has_prefix_path_nil in H by assumption; discriminate|].
+    + destruct b as [|c0 b0] eqn:Eb.
+      { rewrite (has_prefix_path_nil sub Hs) in H. destruct (components sub) eqn:Ec; [|discriminate].
+        apply (Hno (components p) []). simpl. rewrite ?app_nil_r. reflexivity. }
       rewrite <- Eb in *. assert (Hb : b <> []) by (subst; discriminate).
-      rewrite (Hpre b Hb) in H. unfold path_prefixb in H. apply andb_true_iff in H as [Hr H].
-      apply eqb_prop in Hr.
-      destruct (rooted b) eqn:Rb.
-      * (* then p contains "//" and sub is rooted: excluded *)
-        destruct Hg as [Hg|Hg]; [congruence|].
-        rewrite Eb in Rb. simpl in Rb. apply N.eqb_eq in Rb. rewrite E, Eb, Rb in Hg.
-        rewrite has_double_slash_mid in Hg. discriminate.
-      * apply list_prefixb_spec in H as [c H].
-        assert (Ecb : components b = names b) by (unfold components; rewrite Rb; reflexivity).
-        apply (Hno ((if rooted p then [[]] else []) ++ names a) c).
-        unfold components at 1. fold (names p). rewrite E, names_app_slash.
-        rewrite <- Ecb, H, <- !app_assoc. reflexivity.
+      rewrite (Hpre a b Hb (or_intror E)) in H. unfold path_prefixb in H. apply andb_true_iff in H as [Hr H].
+      apply eqb_prop in Hr. rewrite not_slash_first_rooted in Hnb. apply negb_true_iff in Hnb.
+      apply list_prefixb_spec in H as [c H].
+      assert (Ecb : components b = names b) by (unfold components; rewrite Hnb; reflexivity).
+      apply (Hno ((if rooted p then [[]] else []) ++ names a) c).
+      unfold components at 1. fold (names p). rewrite E, names_app_slash.
+      rewrite <- Ecb, H, <- !app_assoc. reflexivity.
 Qed.
